@@ -183,9 +183,9 @@ type rop struct {
 	kind string
 	term string
 	run  func(r io.Reader, rs io.ReadSeeker) (func() string, error) // value term (after measurement), error
-	seek bool                                                     // needs a ReadSeeker
-	zero bool                                                     // collection of zero-size elements: never inflate
-	pfx  int                                                      // width of the leading prefix
+	seek bool                                                       // needs a ReadSeeker
+	zero bool                                                       // collection of zero-size elements: never inflate
+	pfx  int                                                        // width of the leading prefix
 	// what the call claims to read with one ReadBytes: a fixed length argument (fixed) or the value of the prefix (sized)
 	fixed int64
 	sized bool
@@ -435,28 +435,32 @@ func writeT(t int, v *big.Int, arr []byte, w io.Writer) error {
 	return stream.Write(w, [38]byte(arr))
 }
 
+// genWopT: stream.Write[T] / stream.Read[T] for the t-th allowed type
+func genWopT(r *vx.Rng, t int) wop {
+	var v *big.Int
+	var arr []byte
+	var sv string
+	switch {
+	case t < 8:
+		v = rnum(r, t)
+		sv = joinT("SVNum", zbig(v))
+	case t == 8:
+		v = big.NewInt(int64(r.Intn(2)))
+		sv = joinT("SVBool", vx.Bool(v.Sign() != 0))
+	default:
+		v = big.NewInt(0)
+		arr = rbytes(r, tkSizes[t])
+		sv = joinT("SVBytes", bytesT(arr))
+	}
+	return wop{kind: "T", term: joinT("WT", tkNames[t], sv), want: sv, read: ropT(t),
+		run: func(w *stream.ByteBuffer) error { return writeT(t, v, arr, w) }}
+}
+
 func genWop(r *vx.Rng) wop {
 	l := vx.Pick(r, goodLpts)
 	switch r.Intn(9) {
 	case 0, 1:
-		t := r.Intn(12)
-		var v *big.Int
-		var arr []byte
-		var sv string
-		switch {
-		case t < 8:
-			v = rnum(r, t)
-			sv = joinT("SVNum", zbig(v))
-		case t == 8:
-			v = big.NewInt(int64(r.Intn(2)))
-			sv = joinT("SVBool", vx.Bool(v.Sign() != 0))
-		default:
-			v = big.NewInt(0)
-			arr = rbytes(r, tkSizes[t])
-			sv = joinT("SVBytes", bytesT(arr))
-		}
-		return wop{kind: "T", term: joinT("WT", tkNames[t], sv), want: sv, read: ropT(t),
-			run: func(w *stream.ByteBuffer) error { return writeT(t, v, arr, w) }}
+		return genWopT(r, r.Intn(12))
 	case 2:
 		n := lenPick(r)
 		data := rbytes(r, n)
@@ -476,7 +480,9 @@ func genWop(r *vx.Rng) wop {
 		}
 		arr := rbytes(r, 32)
 		return wop{kind: "objectarr32", term: joinT("WObject", joinT("WcbArr32", bytesT(arr))), want: joinT("SVBytes", bytesT(arr)), read: ropObject(32, cbKind{kind: 1}),
-			run: func(w *stream.ByteBuffer) error { return stream.WriteObject(w, [32]byte(arr), typeutils.ByteArray32ToBytes) }}
+			run: func(w *stream.ByteBuffer) error {
+				return stream.WriteObject(w, [32]byte(arr), typeutils.ByteArray32ToBytes)
+			}}
 	case 6:
 		switch r.Intn(4) {
 		case 0:
@@ -535,8 +541,9 @@ func genWop(r *vx.Rng) wop {
 	}
 }
 
-// runWrite writes pre, then the op, then a sentinel byte into a fresh ByteBuffer.
-func runWrite(pre []byte, o wop) (out []byte, err error, panicked bool) {
+// runWrite writes pre, then the op, then (unless the op is to be the LAST write of the stream) a sentinel byte into a
+// fresh ByteBuffer, and returns Bytes().
+func runWrite(pre []byte, o wop, sentinel bool) (out []byte, err error, panicked bool) {
 	_, panicked, _ = measured(func() {
 		w := stream.NewByteBuffer()
 		if _, err = w.Write(pre); err != nil {
@@ -545,8 +552,10 @@ func runWrite(pre []byte, o wop) (out []byte, err error, panicked bool) {
 		if err = o.run(w); err != nil {
 			return
 		}
-		if _, err = w.Write([]byte{0xEE}); err != nil { // sentinel: makes the final write position observable
-			return
+		if sentinel {
+			if _, err = w.Write([]byte{0xEE}); err != nil { // sentinel: makes the final write position observable
+				return
+			}
 		}
 		b, _ := w.Bytes()
 		out = exact(b)
